@@ -139,7 +139,10 @@ func All() []Val {
 		{"m-a1", "{a: 1}", mp(kv{"a", i(1)}), "map"},
 		{"m-a1b2", "{a: 1, b: [2]}", mp(kv{"a", i(1)}, kv{"b", arr(i(2))}), "map"},
 		{"m-imm-nested", "{k: immutable({j: [1]})}", mp(kv{"k", immp(kv{"j", arr(i(1))})}), "map"},
+		{"m-b1", "{b: 1}", mp(kv{"b", i(1)}), "map"},
+		{"m-undef", "{a: undefined}", mp(kv{"a", func() tengo.Object { return tengo.UndefinedValue }}), "map"},
 		{"im-empty", "immutable({})", immp(), "immap"},
+		{"im-c-undef", "immutable({c: undefined})", immp(kv{"c", func() tengo.Object { return tengo.UndefinedValue }}), "immap"},
 		{"im-a1", "immutable({a: 1})", immp(kv{"a", i(1)}), "immap"},
 		{"im-a1b2", "immutable({a: 1, b: [2]})", immp(kv{"a", i(1)}, kv{"b", arr(i(2))}), "immap"},
 		{"e-x", `error("x")`, func() tengo.Object { return &tengo.Error{Value: &tengo.String{Value: "x"}} }, "error"},
@@ -230,7 +233,6 @@ func Extended() []Val {
 		{"a-deep", "[1, [2, [3]]]", arr(i(1), arr(i(2), arr(i(3)))), "array"},
 		{"a-str", `["a"]`, arr(s("a")), "array"},
 		{"ia-deep", "immutable([1, [2]])", imarr(i(1), arr(i(2))), "imarray"},
-		{"m-undef", "{a: undefined}", mp(kv{"a", und}), "map"},
 		{"m-nested", "{a: {b: 1}}", mp(kv{"a", mp(kv{"b", i(1)})}), "map"},
 		{"e-undef", "error(undefined)", func() tengo.Object { return &tengo.Error{Value: tengo.UndefinedValue} }, "error"},
 		{"e-err", `error(error("x"))`, func() tengo.Object {
